@@ -373,11 +373,20 @@ def a_moveaxis(rng: Any, s: Any) -> Any:
     ranks = {len(l.shape) for l in leaves(s)}
     k = int(rng.integers(1, r + 1))
     if len(ranks) > 1:
-        # negative axes address trailing dims of every leaf, non-negative the leading ones
-        neg = bool(rng.integers(2))
-        pool = list(range(-r, 0)) if neg else list(range(r))
-        src = [int(v) for v in rng.permutation(pool)[:k]]
-        dst = [int(v) for v in rng.permutation(pool)[:k]]
+        # negative axes address trailing dims of every leaf, non-negative the leading ones; any mix
+        # of signs is legal as long as numpy.moveaxis accepts it for every leaf
+        pool = list(range(-r, 0)) + list(range(r))
+        for _ in range(20):
+            src = [int(v) for v in rng.permutation(pool)[:k]]
+            dst = [int(v) for v in rng.permutation(pool)[:k]]
+            try:
+                for l in leaves(s):
+                    np.moveaxis(np.zeros(l.shape), src, dst)
+                break
+            except Exception:  # noqa: BLE001
+                continue
+        else:
+            src, dst = [0], [0]
     else:
         perm_s = [int(v) for v in rng.permutation(r)[:k]]
         perm_d = [int(v) for v in rng.permutation(r)[:k]]
@@ -738,10 +747,16 @@ def _expr_kind(rng: Any, kind: str, s: Any, b: Budget, depth: int) -> Any:
         form = int(rng.integers(3))
         if form == 0:
             return e.T @ e
-        mid = atom(rng, t, only=('homothety', 'diagonal', 'identity', 'hwp', 'qurot', 'toeplitz'))
-        if not struct_eq(mid.out_structure(), t):
+        mids = []
+        for _ in range(int(rng.integers(1, 4))):
+            mid = atom(rng, t, only=('homothety', 'diagonal', 'identity', 'hwp', 'qurot', 'toeplitz'))
+            if struct_eq(mid.out_structure(), t):
+                mids.append(mid)
+        if not mids:
             return e.T @ e
-        return e.T @ mid @ e
+        if rng.integers(2):
+            return combine(rng, [e.T] + mids + [e])
+        return CompositionOperator([e.T] + mids + [e])
     if kind == 'square_T':
         e = expr(rng, s, b, depth + 1)
         if 'InverseOperator' in _names(e):
